@@ -217,6 +217,9 @@ class Kernel:
             raise RuntimeError("block_until from a non-simulated thread")
         self._check(t)
         self.log(label)
+        self.steps += 1  # also when the predicate already holds: a caller spinning on it must hit the step cap
+        if self.steps > self.step_cap:
+            raise StepCap(f"more than {self.step_cap} yields")
         while not pred():
             self.steps += 1
             if self.steps > self.step_cap:
